@@ -25,7 +25,7 @@ ASSUMPTIONS = ['np.asarray / astype / np.full are the reference semantics',
 ANCHORS = ['array:asarray', 'array:create_array', 'array:_archunkgenerator', 'array:_fillgenerator',
            'numtype:arraynumtypeinfo', 'utils:fit_frames', 'datadir:create_datadir']
 REQUIRED = ['mon.live_handle', 'mon.fresh_handle', 'mon.ifd_array', 'mon.rejections', 'mon.chunklen_agreement']
-MIN_NONTRIVIAL = {'quick': 1200, 'thorough': 12000}
+MIN_NONTRIVIAL = {'quick': 1200, 'thorough': 20000}
 
 SHAPES = [(n,) + t for n in (0, 1, 2, 5)
           for t in [(), (1,), (2,), (3,), (2, 3), (1, 2), (3, 1), (2, 1, 3), (1, 1, 2), (3, 2, 2)]]
@@ -55,8 +55,9 @@ def cases(tier, seed):
     rng.shuffle(grid)
     take = len(grid) if dense else 700
     for k, (nt, bo, layout, shape) in enumerate(grid[:take]):
-        yield {'form': 'ndarray', 'numtype': nt, 'bo': bo, 'layout': layout, 'shape': list(shape),
-               'dtypearg': None if k % 3 else 'other', 'none_chunklen': k % 400 == 0, 'k': k}
+        for darg in ([None if k % 3 else 'other'] if not dense else [None, 'other', 'any']):
+            yield {'form': 'ndarray', 'numtype': nt, 'bo': bo, 'layout': layout, 'shape': list(shape),
+                   'dtypearg': darg, 'none_chunklen': k % 400 == 0 and darg is None, 'k': k}
     # ---- sequences
     for k in range(4000 if dense else 260):
         yield {'form': rng.choice(['list', 'tuple']), 'pykind': rng.choice(['int', 'float', 'complex']),
@@ -101,9 +102,7 @@ def chunklens(n, with_none):
 def pick_dtypearg(rng, case, src_dtype):
     if case['dtypearg'] is None:
         return None
-    if case['dtypearg'] == 'other':
-        return gens.other_dtype(rng, src_dtype) if False else _other_target(rng, src_dtype)
-    return gens.dt(rng.choice(gens.T13), rng.choice(gens.BO))
+    return _other_target(rng, src_dtype)
 
 
 def _other_target(rng, src):
